@@ -87,7 +87,20 @@ def run_list(W, argv_args, mode, replies):
 
 def outcomes(before, r, after, args, mode):
     """per-argument: (state, declined?)"""
-    prompts = PROMPT.findall(r.out) if mode.startswith('-i') else []
+    # one prompt = one stdout chunk ending in "? "; it belongs to the argument whose name appears last in it
+    # (independent of the wording of the question)
+    prompts = []
+    if mode.startswith('-i'):
+        names = sorted({a for a, _ in args}, key=len, reverse=True)
+        for chunk in r.out.split('? ')[:-1]:
+            best = None
+            for a in names:
+                k = chunk.rfind("'%s'" % a)
+                if k < 0:
+                    k = chunk.rfind(a)
+                if k >= 0 and (best is None or k > best[0]):
+                    best = (k, a)
+            prompts.append(best[1] if best else None)
     out = []
     seen_trashed = set()
     pi = 0
